@@ -49,7 +49,7 @@ STRONG_SPEC = {"max", "min", "saturating_sub", "saturating_add", "checked_sub", 
                "is_ok", "is_err", "unwrap_or", "Some", "Ok", "Err", "None", "if", "match", "let", "return", "for", "while",
                "usize::from", "u64::from", "u32::from", "u16::from", "u128::from", "Vec::from", "to_vec",
                "vec!", "Vec::new", "Vec::with_capacity", "BTreeMap::new",
-               "entry", "or_insert_with"}    # the last two: only in the statement form that rule R28 rewrites
+               "entry", "or_insert_with", "extend"}    # the last three: only in the forms that rules R28 / R2 / R29 / R31 rewrite (any other form has no specification: undecided)
 
 OFFLINE_ENV = {"CARGO_NET_OFFLINE": "true"}
 
